@@ -436,7 +436,19 @@ class Judge:
                 chk.violation('InternalError:' + c['st'][len('internal:'):],
                               {'program': [table[j] for j in c['t']], 'af': c['af'], 'text': c['text'], 'outcome': c['st'], 'error': c.get('error')})
         todo = [c for c in cases if not c['st'].startswith('internal:')]
-        for part_no, part in enumerate(common.chunks(todo, 50000)):
+        # parts of bounded size: about 50,000 small programs or fewer big ones (TLC holds the whole batch as values)
+        parts: T.List[T.List[T.Dict[str, T.Any]]] = [[]]
+        weight = 0
+        for c in todo:
+            w = 40 + 12 * len(c['t']) + 3 * sum(len(x) + 2 for x in c['out'])
+            if parts[-1] and (weight + w > 4_000_000 or len(parts[-1]) >= 50000):
+                parts.append([])
+                weight = 0
+            parts[-1].append(c)
+            weight += w
+        for part_no, part in enumerate(parts):
+            if not part:
+                continue
             # ship only the statements this part uses, hash-consed: nodes[i] = [k, s, n, cs, [child indices]]
             used = sorted({j for c in part for j in c['t']})
             remap = {j: i for i, j in enumerate(used)}
